@@ -187,6 +187,14 @@ def check_derive(case):
     got = attempt(whd.derive_from_path, path, root.string())
     d = _diff(got, want.string())
     f.expect(d is None, f"derive/xprv-ne-reference/{d}", f"path {path}: {got!r} want {want.string()!r}")
+    if any(i >= ref.HARD for i in idxs):
+        # the same path with its hardened elements written as plain child numbers (2147483648 for 0'): a parser may refuse
+        # that spelling, but a path it accepts names the child with that number
+        bare = "/".join(["m"] + [str(i) for i in idxs])
+        got2 = attempt(whd.derive_from_path, bare, root.string())
+        d = None if raised(got2) else _diff(got2, want.string())
+        f.expect(d is None, f"derive/child-number-spelling-ne-reference/{d}", f"path {bare}: {got2!r} want {want.string()!r}")
+        cls.append("nt:hardened-spelled-as-child-number" + ("/refused" if raised(got2) else ""))
     xp = attempt(whd.get_xpub, want.string())
     d = _diff(xp, want.neuter().string())
     f.expect(d is None, f"derive/get_xpub-ne-reference/{d}", f"path {path}: {xp!r} want {want.neuter().string()!r}")
